@@ -17,14 +17,18 @@ LEVEL_TEXT = ("The recipe grammar is modelled rule for rule as a total Lean pars
               "27 terminals) on every run, and parser_recognises_grammar proves, for every text, that the hand-written parser model accepts exactly what a "
               "generic PEG recogniser with peggie's semantics accepts on that data (rule by rule; terminals_known, rules_closed, grammar_supported by "
               "decide) - a one-token edit of grammar.peg changes the generated file and breaks the proof of the edited rule; comment-only edits do not. The "
-              "generic recogniser on the generated data is also compared with the real parser on every text of the correspondence.")
+              "generic recogniser on the generated data is also compared with the real parser on every text of the correspondence. The terminals too (C06d): the syntax tree of each of the 27 regular expressions is regenerated with CPython's own regex parser "
+              "(Gen/Regexes.lean) and scanner_eq_regex_<terminal> proves every scanner of the parser model equal to the match of its expression under a "
+              "backtracking engine with re's semantics (all_terminals_are_their_regexes; units_regex_is_table for the unit alternation), hence "
+              "parser_is_grammar_peg: the parser model accepts exactly what the PEG of grammar.peg accepts with every terminal read as a Python regular "
+              "expression. What stays trusted there: the engine = CPython's re on these patterns and the generic recogniser = peggie, both compared exactly.")
 LEVEL_NOTE = ("Trusted: Lean kernel (totality of the parser model; theorems about number/token scanners); peggie's PEG semantics as exercised by correspondence. "
               "The print/parse round trip is a theorem for whole blocks of arbitrarily nested statements (recipe_roundtrip, expr_roundtrip, stmt_roundtrip: every "
               "well-formed spelling - white space chosen independently at every node, trailing commas, parenthesised shorthand, output lists, blank lines - of an "
               "abstract block parses to its AST; two_spellings_same_ast_mod_offsets; hypothesis-free for plain names, plain_recipe_roundtrip) under explicit "
               "side conditions at the leaves (a reference not followed by blanks and '('; names that do not read as amounts); compilation of the parsed AST and "
               "strings with interpolated numbers inside nested positions rest on the lemmas of C06 plus the oracle.")
-LEAN_MODULES = ["RecipeGrid.Props.C06", "RecipeGrid.Props.C06b", "RecipeGrid.Props.C06c"]
+LEAN_MODULES = ["RecipeGrid.Props.C06", "RecipeGrid.Props.C06b", "RecipeGrid.Props.C06c", "RecipeGrid.Props.C06d"]
 SOURCES = ["recipe_grid/parser/grammar.peg", "recipe_grid/parser/ast.py", "recipe_grid/parser/__init__.py", "recipe_grid/units.py", "recipe_grid/compiler.py"]
 RULE = ("abstract descriptions of C01 crossed with two independent random spellings each (quote style per string part, whitespace at each optional position, "
         "shorthand vs nested single-input steps, trailing commas, line breaks in parentheses, fraction layout, unit letter case) plus the canonical spelling; "
@@ -56,6 +60,14 @@ def correspondence(run):
         run.groups["generated grammar (generic PEG recogniser) accept/reject"] += 1
         if m is not accepted:        # decoded reply: True / False (None = the generic run was undefined)
             run.disagree("peg-accepts", texts[i], "accepted" if accepted else "rejected", repr(m)[:300])
+    # the same with every terminal read as a Python regular expression (generated syntax trees, Props/C06d: parser_is_grammar_peg)
+    sub = keep[::3]
+    rep = run.ask([sexp.tag("peg-accepts-re", sexp.s(texts[i])) for i in sub])
+    for i, m in zip(sub, rep):
+        accepted = not reals[i].startswith("syntax")
+        run.groups["generated grammar with regex terminals (regex engine) accept/reject"] += 1
+        if m is not accepted:
+            run.disagree("peg-accepts-re", texts[i], "accepted" if accepted else "rejected", repr(m)[:300])
 
 
 def ast_no_offsets(t):
